@@ -541,6 +541,33 @@ theorem file_source_converges (conv : B → Conv (WireList R)) (eqv : Option (Wi
         simp only [FileSrc.step, hcl, if_true]
         exact ⟨h1, fun _ => hnil, fun h => by simp [hcl] at h⟩
 
+/-- Renaming the watched file away and **back unchanged** (or putting any file `c` there while the re-watch retries are
+    pending — same size, same mtime or not: the model, like the code, looks at nothing but the content): from an open idle
+    source, after `[renameAway, recreate c]` the rules are those of `c` again.  (`renameBack` is `recreate` with the content
+    the file had; this is an instance of `file_source_converges`.) -/
+theorem rename_away_and_back (conv : B → Conv (WireList R)) (eqv : Option (WireList R) → Option (WireList R) → Bool)
+    (mo : Module R) (empty : B) (hsound : SoundFor mo eqv) (hempty : conv empty = .ok none) (c0 : Option B)
+    (evs : List (FileEv B)) (c : B) (v : Option (WireList R)) (hv : conv c = .ok v) :
+    let s := FileSrc.run conv eqv mo empty (FileSrc.init conv eqv mo c0).1 evs
+    s.closed = false → s.rewatching = false →
+    List.Forall₂ (InForceFor mo) (FileSrc.run conv eqv mo empty s [.renameAway, .recreate c]).hm.2.enforced
+      (validElems mo.valid v) := by
+  intro s hcl hrw
+  have hrun : FileSrc.run conv eqv mo empty s [.renameAway, .recreate c] =
+      FileSrc.run conv eqv mo empty (FileSrc.init conv eqv mo c0).1 (evs ++ [.renameAway, .recreate c]) := by
+    simp [FileSrc.run, s, List.foldl_append]
+  have hinv := file_source_converges conv eqv mo empty hsound hempty c0 (evs ++ [.renameAway, .recreate c])
+  rw [← hrun] at hinv
+  have h1 : (FileSrc.run conv eqv mo empty s [.renameAway, .recreate c]).closed = false := by
+    simp [FileSrc.run, FileSrc.step, hcl, hrw]
+  have h2 : (FileSrc.run conv eqv mo empty s [.renameAway, .recreate c]).rewatching = false := by
+    simp [FileSrc.run, FileSrc.step, hcl, hrw]
+  have h3 : (FileSrc.run conv eqv mo empty s [.renameAway, .recreate c]).pending = false := by
+    simp [FileSrc.run, FileSrc.step, hcl, hrw]
+  have h4 : (FileSrc.run conv eqv mo empty s [.renameAway, .recreate c]).content = some c := by
+    simp [FileSrc.run, FileSrc.step, hcl, hrw]
+  exact hinv.2.2 h1 h2 h3 c v h4 hv
+
 /-- The file part of the property as stated: after any events that do not remove the file for good (no `remove`, no
     exhausted retries), once nothing is pending the rules are those of the current content. -/
 def file_converges_statement : Prop :=
